@@ -253,6 +253,21 @@ type TypeOpts struct {
 	Capsule  bool // allow capsule types
 	NoSet    bool
 	NoMap    bool
+	// Long > 0: a tuple or object type is, with probability about 0.55/Long,
+	// a LONG one (5..17 elements / 5..12 attributes of leaf types). 0 = off.
+	Long int
+}
+
+// longTypeLen rolls for a long structural type.
+func longTypeLen(t *rapid.T, o TypeOpts, max int) (int, bool) {
+	if o.Long > 0 && rapid.IntRange(0, o.Long-1).Draw(t, "longtype") == o.Long/2 {
+		n := rapid.SampledFrom(LongSizes[:10]).Draw(t, "longn")
+		if n > max {
+			n = max
+		}
+		return n, true
+	}
+	return 0, false
 }
 
 // Type draws a type specification.
@@ -283,6 +298,19 @@ func drawType(t *rapid.T, o TypeOpts, depth int) spec.T {
 		e := drawType(t, o, depth-1)
 		return spec.T{K: k, E: &e}
 	case spec.KTuple:
+		if n, long := longTypeLen(t, o, 17); long {
+			es := make([]spec.T, n)
+			ed := depth - 1
+			if ed > 1 {
+				ed = 1
+			}
+			eo := o
+			eo.Long = 0
+			for i := range es {
+				es[i] = drawType(t, eo, ed)
+			}
+			return spec.T{K: spec.KTuple, Elems: es}
+		}
 		n := rapid.IntRange(0, 3).Draw(t, "tuplelen")
 		es := make([]spec.T, n)
 		for i := range es {
@@ -291,6 +319,13 @@ func drawType(t *rapid.T, o TypeOpts, depth int) spec.T {
 		return spec.T{K: spec.KTuple, Elems: es}
 	case spec.KObject:
 		n := rapid.IntRange(0, 3).Draw(t, "nattrs")
+		if ln, long := longTypeLen(t, o, len(attrNames)-2); long {
+			n = ln
+			if depth > 2 {
+				depth = 2 // attributes of a long object type are shallow
+			}
+			o.Long = 0
+		}
 		names := distinctKeys(t, attrNames, n, "attrnames")
 		as := make([]spec.Attr, len(names))
 		for i, nm := range names {
@@ -453,7 +488,10 @@ func drawKnown(t *rapid.T, ty spec.T, o ValOpts) spec.V {
 	case spec.KBool:
 		return spec.KnownBool(rapid.Bool().Draw(t, "b"))
 	case spec.KNumber:
-		if o.Simple && o.inLong {
+		if o.Simple && o.inLong && rapid.Bool().Draw(t, "wide") {
+			// half of the members of a long collection come from a wider pool
+			// (long sets keep their length), half from the narrow one (long
+			// lists hold duplicates)
 			return spec.KnownNum(SmallInt(-40, 80).Draw(t, "n"))
 		}
 		if o.Simple {
@@ -461,7 +499,7 @@ func drawKnown(t *rapid.T, ty spec.T, o ValOpts) spec.V {
 		}
 		return spec.KnownNum(Num(NumOpts{NoInf: o.NoInf}).Draw(t, "n"))
 	case spec.KString:
-		if o.Simple && o.inLong {
+		if o.Simple && o.inLong && rapid.Bool().Draw(t, "wide") {
 			return spec.KnownStr(SimpleString().Draw(t, "s") + strconv.Itoa(rapid.IntRange(0, 60).Draw(t, "sfx")))
 		}
 		if o.Simple {
